@@ -87,6 +87,10 @@ class Ctx:
         return os.path.join(self.out, name)
 
     def tlc(self, module, cfg, count=True, **kw):
+        # time limits are written for the quick tier on an idle machine; the thorough tier explores 5-20 x as much, and checks may run side by side
+        kw["timeout"] = int(kw.get("timeout", 900) * (6 if self.tier == "thorough" else 2))
+        if self.tier == "thorough":
+            kw.setdefault("xmx", "24g")
         try:
             r = tlc.run(module, cfg, self.out, **kw)
         except tlc.ModelError as e:
@@ -154,6 +158,7 @@ class Ctx:
         e = dict(os.environ)
         e.update(ASAN_ENV)
         e.update(env or {})
+        timeout = int(timeout * (6 if self.tier == "thorough" else 2))
         p = subprocess.run(["timeout", str(timeout), exe] + [str(a) for a in args], env=e,
                            stdout=subprocess.PIPE, stderr=subprocess.PIPE, text=True, errors="replace")
         with open(self.path("driver_%s.err" % name), "a") as f:
